@@ -299,8 +299,9 @@ class Verdict:
         }
         if self.known_hits:
             ev["coverage"]["known_findings_reproduced"] = [k for k, _, _ in self.known_hits]
-        os.makedirs(os.path.join(ROOT, "evidence"), exist_ok=True)
-        with open(os.path.join(ROOT, "evidence", ctx.prop + ".json"), "w") as f:
+        evdir = os.environ.get("VERIF_EVIDENCE_DIR") or os.path.join(ROOT, "evidence")     # (seeded-change runs keep theirs apart)
+        os.makedirs(evdir, exist_ok=True)
+        with open(os.path.join(evdir, ctx.prop + ".json"), "w") as f:
             json.dump(ev, f, indent=1)
         for kid, what, _ in self.known_hits:
             print("KNOWN-FINDING: property=%s %s: %s" % (ctx.prop, kid, what))
